@@ -91,6 +91,10 @@ pub fn run(seed: u64, count: usize, _thorough: bool, out: &mut Out, tmp: &str) {
                         a.element = "H".into();
                         a.name = "H".into();
                         a.atf = None;
+                    } else if (a.serial == 0 || a.serial == 99_999) && is_hydrogen(&a.element, &a.name) {
+                        // the two records between which the atom serial number wraps (99999, 0) are not hydrogens
+                        a.element = "C".into();
+                        a.name = "CA".into();
                     }
                     prev_serial = a.serial;
                     prev_res = a.resnum;
